@@ -694,7 +694,11 @@ func Gen(prop, tier string, seed, run uint64) Plan {
 		}
 		p.Poip = true
 	}
-	if p.Yield && useConv && len(p.Converters) > 0 && (prop == "C09" || prop == "C16") && !p.Poip && run%7 != 6 && r.IntN(3) == 0 {
+	quietOdds := 3
+	if prop == "C16" {
+		quietOdds = 2
+	}
+	if p.Yield && useConv && len(p.Converters) > 0 && (prop == "C09" || prop == "C16") && !p.Poip && run%7 != 6 && r.IntN(quietOdds) == 0 {
 		// quiet plan around one converter job: a single tag without payload or time
 		// filter (an import that only extends streams does not make it pending)
 		// with a converter attached, captures imported one by one in order. What
@@ -704,6 +708,19 @@ func Gen(prop, tier string, seed, run uint64) Plan {
 		mutOps = []Op{
 			{C: CMut, K: "AddTag", Name: "service/t", Color: "#123456", Def: def},
 			{C: CMut, K: "SetConv", Name: "service/t", Convs: []string{p.Converters[r.IntN(len(p.Converters))]}},
+		}
+		if r.IntN(2) == 0 {
+			// a second tag with overlapping matches shares the converter and loses it
+			// again later, possibly while streams of both tags wait in the queue
+			c := mutOps[1].Convs
+			def2 := []string{"id:0:", "sport:80,443,1337,8080,31337,53", "protocol:tcp", "cport:1:"}[r.IntN(4)]
+			mutOps = append(mutOps,
+				Op{C: CMut, K: "AddTag", Name: "service/s", Color: "#123456", Def: def2},
+				Op{C: CMut, K: "SetConv", Name: "service/s", Convs: c})
+			for i, m := 0, 4+r.IntN(14); i < m; i++ {
+				mutOps = append(mutOps, Op{C: CMut, K: "UpdColor", Name: "service/t", Color: colors[r.IntN(len(colors))]})
+			}
+			mutOps = append(mutOps, Op{C: CMut, K: "SetConv", Name: "service/s"})
 		}
 		if len(viewOps) > 3 {
 			viewOps = viewOps[:3]
